@@ -6,7 +6,7 @@ import lib
 
 MANIFEST = {
  "category": "proof",
- "text": "Coq theorems (Properties/C11.v) about hand-written Gallina models of makeKeySafe (url.PathEscape), ForkId.ForkIdString/forkId/writeForkIndex, encodeJournalName, journal file naming (Fork.updateId, NewChunk, Metadata.journalFile, mrjob) and the journal routing of Node.refreshState (jobJournalRe, parseRunFilename, getFork, getChunk, Metadata.cache). C11_path_escape_inj / C11_journal_encode_inj: key escaping and the journal encoding are prefix codes, hence injective on all byte strings, and journal tokens never contain '.' or '/'. C11_fork_id_inj / C11_fork_journal_token_inj: two forks of one call (any nesting depth, static or dynamic arrays of any length, maps over any keys, ranges depending on the indices above) with equal id string - equal directory, equal journal token - have equal indices and keys. C11_parse_print_journal: the model of jobJournalRe applied to the name a job writes returns exactly the writer's node name (any bytes), fork token, chunk, uniquifier and file. C11_get_fork_exact / C11_routing_exact_within_node: for every order of the fork list getFork returns the fork owning the parsed token, and chunk, attempt and file are the writer's. C11_stale_uniquifier_ignored: an update of another attempt is not recorded. Tied to the Go code on every run: replacer pairs, the journal regular expression, prefixes and journaled file names are regenerated from the Go AST and the proofs re-checked against them (C11_constants_as_modelled); model and implementation are compared on exhaustive short keys, enumerated fork-id shapes, structured and malformed journal names and generated pipestance skeletons built from real Node/Fork/Chunk/Metadata objects whose journal files are really created (extracted OCaml + kernel vm_compute sample); the property is read directly on the implementation (distinct directories / journal names, route(name written) = writer) as the search for a failing input; the thorough tier runs real mrp pipestances over adversarial key sets, array lengths crossing decimal widths, chunk counts and nestings and checks completion, exact keys and fork directories.",
+ "text": "Coq theorems (Properties/C11.v) about hand-written Gallina models of makeKeySafe (url.PathEscape), ForkId.ForkIdString/forkId/writeForkIndex, encodeJournalName, journal file naming (Fork.updateId, NewChunk, Metadata.journalFile, mrjob) and the journal routing of Node.refreshState (jobJournalRe, parseRunFilename, getFork, getChunk, Metadata.cache). C11_path_escape_inj / C11_journal_encode_inj: key escaping and the journal encoding are prefix codes, hence injective on all byte strings, and journal tokens never contain '.' or '/'. C11_fork_id_inj / C11_fork_journal_token_inj: two forks of one call (any nesting depth, static or dynamic arrays of any length, maps over any keys, ranges depending on the indices above) with equal id string - equal directory, equal journal token - have equal indices and keys. C11_parse_print_journal: the model of jobJournalRe applied to the name a job writes returns exactly the writer's node name (any bytes), fork token, chunk, uniquifier and file. C11_get_fork_exact / C11_routing_exact_within_node: for every order of the fork list getFork returns the fork owning the parsed token, and chunk, attempt and file are the writer's. C11_stale_uniquifier_ignored: an update of another attempt is not recorded. C11_attempt_attribution_exact / C11_attempt_uniquifiers_distinct: in the attempt state machine of a job (start, reset, notifications by the process of any attempt incl. stragglers, journal reads; histories of any length) every recorded notification was written by the current attempt and no two attempts share a uniquifier; C11_attempt_reuse_refuted shows a reset that keeps the uniquifier breaks it. Tied to the Go code on every run: replacer pairs, the journal regular expression, prefixes and journaled file names are regenerated from the Go AST and the proofs re-checked against them (C11_constants_as_modelled); model and implementation are compared on exhaustive short keys, enumerated fork-id shapes, structured and malformed journal names, attempt op sequences (real Metadata.uniquify / uncheckedReset / UpdateJournal / journal read with Metadata.cache in real directories) and generated pipestance skeletons built from real Node/Fork/Chunk/Metadata objects whose journal files are really created (extracted OCaml + kernel vm_compute sample); the property is read directly on the implementation (distinct directories / journal names, route(name written) = writer) as the search for a failing input; the thorough tier runs real mrp pipestances over adversarial key sets, array lengths crossing decimal widths, chunk counts and nestings and checks completion, exact keys and fork directories.",
  "note": "Trusted: Coq kernel; extraction cross-checked in-kernel on a sample; extractconsts; the hook's VerifTree.Route repeats the parse/find/getFork/getChunk sequence of Node.refreshState (the real refreshState runs in the end-to-end tier). Not proved: the node lookup Node.find (name equality over the node tree; needs node fqids distinct and none equal to top-fqname.fqid of another - tested by the oracle only) and the corollary 'a mapped call returns exactly its keys' (observed end to end only). Guards: fork ranges non-empty (a fork over an empty collection runs no job; ForkIdString can return the empty string for it); source call mode not single; journal names without newline and within the 255-byte file name limit; Go regexp modelled for the one pattern only; '$' in invocation source is subject to mrp's environment expansion and is excluded from end-to-end keys.",
  "technique": "Coq proof (prefix-code injectivity by kernel computation over all byte pairs, mixed-radix/digit-run induction over fork part lists, recogniser correctness for the journal pattern) + differential correspondence + implementation-side routing oracle",
 }
@@ -20,6 +20,7 @@ def check(ctx, args):
         "extraction: ExtrOcamlBasic only, OCaml 4.13.1; cross-checked on a sample against vm_compute in the kernel",
         "harness/cmd/extractconsts/journal.go (replacer pairs, jobJournalRe text, Split/Join prefixes, journaled file names copied from the Go AST)",
         "hook martian/core/verif_export_c11.go: builds real Node/Fork/Chunk/Metadata objects without a runtime; Route repeats refreshState's parse/find/getFork/getChunk sequence",
+        "K/Attempt.v models makeUniquifier as a strictly increasing counter (pid + time + per-process count); tied by correspondence on op sequences (uniquifier equality classes, recorded names)",
         "Go regexp semantics hand-modelled for jobJournalRe only (K/Journal.v parse_journal), tied by correspondence on generated names",
     ]
     ctx.assumptions = [
@@ -27,6 +28,7 @@ def check(ctx, args):
         "node fqids of a pipestance are pairwise distinct and none equals top-fqname.fqid of another",
         "journal file names contain no newline and fit the 255-byte file name limit (the documented restriction on keys)",
         "uniquifiers are 10 lower-case hex digits (makeUniquifier); metadata file names contain no dot (checked for the journaled names extracted from the source)",
+        "attempts of one job are made by one mrp process within 2^24 seconds / uniquifiers (the 24-bit time field of the uniquifier wraps)",
         "array indices and lengths below 2^63 (Go int); util.WidthForInt uses floating-point log10 above 10^5, compared up to 10^7",
     ]
     okb = ctx.build_harness()
@@ -46,7 +48,7 @@ def check(ctx, args):
     if okc:
         ctx.model_run("c11", cases, model)
         n, mism = lib.diff_lines(impl, model, cases)
-        ctx.oblige("correspondence: makeKeySafe/encodeJournalName/ForkIdString/parseRunFilename/journal naming+routing/uniquifier == K.ForkName, K.Journal (%d cases, extracted model)" % n,
+        ctx.oblige("correspondence: makeKeySafe/encodeJournalName/ForkIdString/parseRunFilename/journal naming+routing/uniquifier/attempt lifecycle == K.ForkName, K.Journal, K.Attempt (%d cases, extracted model)" % n,
                    not mism, "; ".join("case %s impl=%s model=%s" % (m[1][:160], m[2][:160], m[3][:160]) for m in mism[:4] if m))
         for m in mism[:3]:
             if m:
@@ -76,10 +78,40 @@ def check(ctx, args):
              "  (List.app (filter (fun c => negb (String.eqb (hexd (journal_encode (unhex (fst c)))) (snd c))) jcases)\n"
              "  (filter (fun c => negb (String.eqb (pshow (unhex (fst c))) (snd c))) pcases)).\n"
              "Definition M := Eval vm_compute in map fst bad.\nPrint M.\n") % (lst(ks), lst(js), lst(ps))
+        acs = [(c.split(), o) for c, o in pairs if c.startswith("a ") and "err" not in o]
+        acs = rnd.sample(acs, min(60, len(acs)))
+
+        def aops(f):
+            out = []
+            for t in f[7:7 + int(f[6])]:
+                if t == "S":
+                    out.append("OStart")
+                elif t == "R":
+                    out.append("OReset")
+                elif t == "F":
+                    out.append("ORefresh")
+                else:
+                    _, k, fl = t.split(":")
+                    out.append('OWrite %s%%nat (unhex %s)' % (k, lib.coq_string(fl)))
+            return "[" + "; ".join(out) + "]"
+
+        def aobs(o):
+            out = []
+            for step in o.split(";"):
+                c, n, names = step.split(",")
+                out.append("((%s)%%Z, %s%%nat, [%s])" % (c, n, "; ".join(lib.coq_string(x) for x in names.split("+") if x)))
+            return "[" + "; ".join(out) + "]"
+        v += ("From Martian Require Import K.Attempt.\n"
+              "Definition ashow (ops : list aop) := map (fun x => match x with (c, n, names) => ((match c with Some i => Z.of_nat i | None => (-1)%%Z end), n, map hexd names) end) (atrace false s_init ops).\n"
+              "Fixpoint leq {A} (e : A -> A -> bool) (a b : list A) : bool := match a, b with [] , [] => true | x :: a', y :: b' => e x y && leq e a' b' | _, _ => false end.\n"
+              "Definition oeq (x y : Z * nat * list string) : bool := match x, y with (c1, n1, l1), (c2, n2, l2) => Z.eqb c1 c2 && Nat.eqb n1 n2 && leq String.eqb l1 l2 end.\n"
+              "Definition acases : list (list aop * list (Z * nat * list string)) := [\n%s].\n"
+              "Definition MA := Eval vm_compute in length (filter (fun c => negb (leq oeq (ashow (fst c)) (snd c))) acases).\nPrint MA.\n") % (
+                  ";\n".join("(%s, %s)" % (aops(f), aobs(o)) for f, o in acs))
         rc, out = ctx.coq_eval(v, "c11_cases")
-        okk = rc == 0 and "M = []" in out.replace("\n", " ")
-        ctx.oblige("correspondence: kernel vm_compute of path_escape / journal_encode / parse_journal on %d sampled cases equals the implementation" % (len(ks) + len(js) + len(ps)), okk, out[-800:])
-        ctx.coverage["kernel_sample"] = len(ks) + len(js) + len(ps)
+        okk = rc == 0 and "M = []" in out.replace("\n", " ") and "MA = 0" in out.replace("\n", " ")
+        ctx.oblige("correspondence: kernel vm_compute of path_escape / journal_encode / parse_journal / attempt traces on %d sampled cases equals the implementation" % (len(ks) + len(js) + len(ps) + len(acs)), okk, out[-800:])
+        ctx.coverage["kernel_sample"] = len(ks) + len(js) + len(ps) + len(acs)
     # -- the property read directly on the implementation
     p = ctx.vh_run(["c11", "oracle", s], stdin_path=cases, out_path=oracle)
     ctx.oblige("implementation-side oracle ran on all cases", p.returncode == 0, (p.stderr or b"").decode()[-800:])
@@ -93,7 +125,7 @@ def check(ctx, args):
                 n_fail += 1
                 f = o.split(" ", 2)
                 ctx.fail(f[1], f[2][:600], {"case": c[:6000], "observed": f[2][:2000],
-                                             "how": "vh c11 oracle < case : real Node/Fork/Chunk objects, real journal file creation, then parseRunFilename/find/getFork/getChunk"})
+                                             "how": "vh c11 oracle < case : real Node/Fork/Chunk/Metadata objects, real journal file creation, then parseRunFilename/find/getFork/getChunk (and Metadata.cache for attempt sequences)"})
     e2e = {}
     if thorough or os.environ.get("C11_E2E") == "1":
         e2e = run_e2e(ctx)
@@ -104,10 +136,10 @@ def check(ctx, args):
     ctx.coverage.update({
         "evaluations": len(case_lines),
         "distinct_nontrivial": lib.distinct_count(cases, lambda l: len(l) > 5),
-        "rule": "all 1-byte keys, all keys of length<=2 (3 thorough) over 26 significant byte strings, adversarial pool and its pairs, seeded random keys; every fork-id part list of length<=3 over a 23-entry menu (static/dynamic arrays, maps, empty, undetermined, error shapes), lengths crossing 10..10^7; structured and malformed journal names; pipestance skeletons (1-4 nodes, fork families of depth<=3 with prefix-dependent ranges, permuted fork order, 0-101 chunks, split/join/main writers); distinct by case text",
+        "rule": "all 1-byte keys, all keys of length<=2 (3 thorough) over 26 significant byte strings, adversarial pool and its pairs, seeded random keys; every fork-id part list of length<=3 over a 23-entry menu (static/dynamic arrays, maps, empty, undetermined, error shapes), lengths crossing 10..10^7; structured and malformed journal names; attempt op sequences of 4-13 ops (start / reset / notify by any attempt / journal read) on chunk, split and join jobs; pipestance skeletons (1-4 nodes, fork families of depth<=3 with prefix-dependent ranges, permuted fork order, 0-101 chunks, split/join/main writers); distinct by case text",
         "case_kinds": {"key_escape": kinds.get("k", 0), "journal_encode": kinds.get("j", 0), "key_pairs": kinds.get("q", 0),
                        "fork_ids": kinds.get("i", 0), "journal_parse": kinds.get("p", 0), "uniquifier": kinds.get("u", 0),
-                       "pipestance_skeletons": kinds.get("t", 0)},
+                       "pipestance_skeletons": kinds.get("t", 0), "attempt_op_sequences": kinds.get("a", 0)},
         "oracle_ok": n_ok, "oracle_fail": n_fail,
         "end_to_end": e2e,
         "exhaustive": False,
